@@ -274,7 +274,8 @@ def make_world(seed, kind):
         # the zoo loci that contain no exact positional tie (they bring their own error-free reads)
         world2.add_zoo(w, ("ambiguous_only", "contested", "intronic", "apa", "same_coords"))
         return w, True
-    w = world2.rich_world(seed, n_chroms=3, genes_per_chrom=3, reads_per_t=5, hidden_cov=5, multimappers=False, unmapped=1)
+    w = world2.rich_world(seed, n_chroms=3, genes_per_chrom=3, reads_per_t=5, hidden_cov=5, multimappers=False, unmapped=1,
+                          zoo=("ambiguous_only", "contested", "intronic", "apa", "alt_terminal", "shifted_site", "shared_chain", "same_coords"))
     return w, False
 
 
